@@ -316,7 +316,7 @@ class SysStub(PyStub):
         self.box = BoxStub(tilt)
         self.timestep = sp.Symbol('TS', integer=True)
         self._props = list(props)
-        self._flags = np.zeros((2, 3), dtype=object) if flags == 'zero' else symarray('img', (2, 3), integer=True, nonzero=True)
+        self._flags = np.zeros((2, 3), dtype=object) if flags == 'zero' else (arr([[1, 0, -2], [-1, 0, 2]]) if flags == 'cancel' else symarray('img', (2, 3), integer=True, nonzero=True))
         if flags == 'zero':
             self._flags[...] = sp.Integer(0)
         view = {}
@@ -365,7 +365,7 @@ def data_file(ctx):
         ctx.fn(AD, need)
     aliases = module_aliases(mod)
     n = 0
-    scen = []
+    scen = [dict(pbc=(True, True, True), tilt='tri', flags='cancel', vel=False, units='UQ', atom_style='AQ', f=None)]
     for pbc in itertools.product((False, True), repeat=3):
         scen.append(dict(pbc=pbc, tilt='tri', flags='zero', vel=False, units='UQ', atom_style='AQ', f=None))
     scen.append(dict(pbc=(True, True, False), tilt='orth', flags='nz', vel=True, units='UQ', atom_style='AQ', f='out.dat'))
@@ -475,7 +475,7 @@ def data_file(ctx):
         text_check(ctx, 'DATA-FILE', loc, tag, content, tpl, vals, node=fn, tilt=bx.tilt_syms)
         tabs = [r for r in rec if r[0] == 'dump_table']
         ctx.ob('DATA-FILE', loc, '%s: every table is written from the (wrapped) system itself' % tag, bool(tabs) and all(r[1] is system for r in tabs), node=fn, key=tag + ' same system')
-    ctx.floor('DATA-FILE', n, 12)
+    ctx.floor('DATA-FILE', n, 13)
 
 
 # ------------------------------------------------------------------ dump file
